@@ -26,6 +26,7 @@ pub fn dispatch(prop: &str, ctx: &mut RunCtx<'_>) -> Option<Violation> {
         "C01" => crate::c01::run(ctx),
         "C04" => crate::c04::run(ctx),
         "C11" => crate::c11::run(ctx),
+        "C20" => crate::c20::run(ctx),
         "C19" => crate::c04::run_uper(ctx, true),
         other => Some(Violation { signature: format!("HARNESS/unknown-property/{other}"), detail: String::new() }),
     }
